@@ -38,6 +38,9 @@ func first(in []*ref.V) *ref.V {
 	return in[0]
 }
 
+var bigNeighbours = []int64{9007199254740992, 9007199254740993, 9007199254740994, 9223372036854775806, 9223372036854775807,
+	-9007199254740993, -9007199254740992, -9223372036854775807, -9223372036854775806, 4611686018427387904, 4611686018427387905}
+
 var litStrings = []string{"a", "b", "abc", "x", "foo", "a b", "", "s*", "?", "1", "true", "null", ",", "-", "é"}
 
 func (g *ExprGen) litScalar(like *ref.V) *ref.V {
@@ -264,6 +267,20 @@ func (g *ExprGen) Pred(in []*ref.V, depth int) *ref.Expr {
 		default:
 			return ref.Pipe(g.Pred(in, depth-1), ref.Fn0("not"))
 		}
+	}
+	if r.IntN(25) == 0 {
+		// two integers that differ but are the same float64 (beyond 2^53), compared exactly
+		a := bigNeighbours[r.IntN(len(bigNeighbours))]
+		b := a
+		for b == a {
+			b = bigNeighbours[r.IntN(len(bigNeighbours))]
+		}
+		cmp := []string{"<", "<=", ">", ">=", "==", "!="}[r.IntN(6)]
+		if r.IntN(2) == 0 {
+			return ref.Bin(cmp, ref.Lit(ref.IntV(a)), ref.Lit(ref.IntV(b)))
+		}
+		arr := &ref.Expr{Op: ref.OpCollect, L: ref.Union(ref.Lit(ref.IntV(a)), ref.Lit(ref.IntV(b)))}
+		return ref.Pipe(arr, ref.Pipe(&ref.Expr{Op: ref.OpSplat}, ref.Bin(cmp, ref.Self(), ref.Lit(ref.IntV(bigNeighbours[r.IntN(len(bigNeighbours))])))))
 	}
 	target := ref.Self()
 	tv := v
